@@ -5,7 +5,10 @@
 use super::{ident_provider::DefaultIdentProvider, visitor_with_context::Ctx};
 use crate::{
     rewriter::Config,
-    transform::transform_status::{Status, TransformStatus},
+    transform::{
+        arrow_transform::ArrowTransform,
+        transform_status::{Status, TransformStatus},
+    },
     visitor::{
         operation_transform_visitor::OperationTransformVisitor,
         visitor_util::get_dd_local_variable_prefix,
@@ -74,6 +77,18 @@ impl VisitMut for BlockTransformVisitor<'_> {
         }
 
         expr.visit_mut_children_with(self);
+    }
+
+    fn visit_mut_arrow_expr(&mut self, arrow: &mut ArrowExpr) {
+        // an arrow function reached here lies outside every block (top level, class field,
+        // parameter default of a top-level function): give its expression body a block, as
+        // the operation visitor does inside blocks, so that it is instrumented like any body
+        if !self.visit_is_cancelled() {
+            if let Some(Expr::Arrow(with_block)) = ArrowTransform::to_dd_arrow_expr(arrow).expr {
+                *arrow = with_block;
+            }
+        }
+        arrow.visit_mut_children_with(self);
     }
 
     fn visit_mut_program(&mut self, node: &mut Program) {
